@@ -947,8 +947,9 @@ func (s *sharedEntryAttributes) validateRange(resultChan chan<- *types.Validatio
 
 	// range through the tvs and check that they are in range
 	for _, tv := range tvs {
-		// we need to distinguish between unsigned and singned ints
-		switch typeSchema.TypeName {
+		// we need to distinguish between unsigned and singned ints, by the built-in type: the name of the type is
+		// another one for a typedef
+		switch typeSchema.GetType() {
 		case "uint8", "uint16", "uint32", "uint64":
 			// procede with the unsigned ints
 			urnges := utils.NewUrnges()
